@@ -5,6 +5,7 @@
 //!   sv drive <family> --out <file.ndjson> [--tier quick|thorough] [--seed N]
 //!   sv replay <family> --in <behaviours.ndjson> --out <file.ndjson>
 mod fam_a;
+mod fam_builder;
 mod fam_f;
 mod fam_faults;
 mod fam_h;
@@ -56,6 +57,7 @@ fn main() {
         ("replay", "compact") => replay::replay_compact(&a, &mut out),
         ("drive", "steps") => fam_a::drive_steps(&a, &mut out),
         ("rerun", _) => rerun::rerun(&a, &mut out),
+        ("drive", "builder") => fam_builder::drive_builder(&a, &mut out),
         ("drive", "c10ops") => fam_a::drive_c10ops(&a, &mut out),
         (m, f) => {
             eprintln!("unknown mode/family {} {}", m, f);
